@@ -148,12 +148,27 @@ const (
 	rMalformed
 )
 
+// PK_OK answers: v = 4*algorithm + blob, the full product of
+// {queried algorithm, another algorithm of the key's family, an algorithm of another
+// key type, an unknown name} x {queried key blob, another key of the same type, a blob
+// of another type, a truncated blob}. Only (queried or family algorithm, queried blob)
+// acknowledges the key. Keys whose family has a single algorithm have no second row.
 const (
-	pkMatch = iota
-	pkOtherKey
-	pkOtherAlgoSameKey
-	pkAlgoOtherType
+	pkMatch = 0
+
+	pkAlgoQueried = 0
+	pkAlgoFamily  = 1
+	pkAlgoForeign = 2
+	pkAlgoUnknown = 3
+
+	pkBlobQueried   = 0
+	pkBlobOtherSame = 1
+	pkBlobOtherType = 2
+	pkBlobMalformed = 3
 )
+
+var pkAlgoName = [...]string{"queried algorithm", "other algorithm of the family", "algorithm of another key type", "unknown algorithm"}
+var pkBlobName = [...]string{"queried key", "another key of the same type", "a key blob of another type", "truncated key blob"}
 
 type reply struct {
 	kind    int
@@ -171,7 +186,10 @@ func (r reply) String() string {
 	case rSuccess:
 		return "SUCCESS"
 	case rPKOK:
-		return "PK_OK(" + [...]string{"matching", "other key", "other algorithm of the same key", "algorithm of another key type"}[r.v] + ")"
+		if r.v == pkMatch {
+			return "PK_OK(matching)"
+		}
+		return "PK_OK(" + pkAlgoName[r.v/4] + ", " + pkBlobName[r.v%4] + ")"
 	case rInfo:
 		return fmt.Sprintf("INFO_REQUEST(%d prompts)", r.v)
 	case rBanner:
@@ -234,7 +252,7 @@ func defaultReply(persona, q int) reply {
 }
 
 // menu lists the answers to a request of kind q; entry 0 is the persona's default.
-func menu(persona, q int, bannerLeft, extLeft int, slim bool) []reply {
+func menu(persona, q int, bannerLeft, extLeft int, slim, family bool) []reply {
 	def := defaultReply(persona, q)
 	out := []reply{def}
 	add := func(r reply) {
@@ -261,8 +279,13 @@ func menu(persona, q int, bannerLeft, extLeft int, slim bool) []reply {
 		add(reply{kind: rSuccess})
 	}
 	if q == qPKQuery {
-		for v := pkMatch; v <= pkAlgoOtherType; v++ {
-			add(reply{kind: rPKOK, v: v})
+		for a := pkAlgoQueried; a <= pkAlgoUnknown; a++ {
+			if a == pkAlgoFamily && !family {
+				continue
+			}
+			for b := pkBlobQueried; b <= pkBlobMalformed; b++ {
+				add(reply{kind: rPKOK, v: 4*a + b})
+			}
 		}
 	}
 	if q == qKIInit || q == qKIResponse {
@@ -283,26 +306,32 @@ func menu(persona, q int, bannerLeft, extLeft int, slim bool) []reply {
 	return out
 }
 
-var menuCache [2][3][8][2][3][]reply
+var menuCache [2][2][3][8][2][3][]reply
 
 func init() {
 	for p := 0; p < 3; p++ {
 		for q := 0; q < 8; q++ {
 			for b := 0; b < 2; b++ {
 				for x := 0; x < 3; x++ {
-					menuCache[0][p][q][b][x] = menu(p, q, b, x, false)
-					menuCache[1][p][q][b][x] = menu(p, q, b, x, true)
+					for f := 0; f < 2; f++ {
+						menuCache[f][0][p][q][b][x] = menu(p, q, b, x, false, f == 1)
+						menuCache[f][1][p][q][b][x] = menu(p, q, b, x, true, f == 1)
+					}
 				}
 			}
 		}
 	}
 }
 
-func cachedMenu(persona, q, bannerLeft, extLeft int, slim bool) []reply {
-	if slim {
-		return menuCache[1][persona][q][bannerLeft][extLeft]
+func cachedMenu(persona, q, bannerLeft, extLeft int, slim, family bool) []reply {
+	f, sl := 0, 0
+	if family {
+		f = 1
 	}
-	return menuCache[0][persona][q][bannerLeft][extLeft]
+	if slim {
+		sl = 1
+	}
+	return menuCache[f][sl][persona][q][bannerLeft][extLeft]
 }
 
 // EXT_INFO variants delivered before SERVICE_ACCEPT (outer dimension).
@@ -519,7 +548,8 @@ func (e *execution) push(pkt []byte, effect func()) { e.queue = append(e.queue, 
 // decide picks the answer to the pending request and queues its packets.
 func (e *execution) decide() {
 	q, m, sp := e.pendQ, e.pend, e.pendSp
-	mn := cachedMenu(e.persona, q, e.banner, e.extra, e.slim)
+	family := q == qPKQuery && sp != nil && otherAlgoSameKey(sp, m.Algo) != ""
+	mn := cachedMenu(e.persona, q, e.banner, e.extra, e.slim, family)
 	ci := e.choose(len(mn))
 	r := mn[ci]
 	if ci != 0 {
@@ -565,16 +595,10 @@ func (e *execution) decide() {
 		e.push(ref.Success(), func() { e.log(false, "SUCCESS"); e.success = true; done() })
 	case rPKOK:
 		algo, blob := m.Algo, m.KeyBlob
-		switch r.v {
-		case pkOtherKey:
-			blob = strangerBlob
-		case pkOtherAlgoSameKey:
+		switch r.v / 4 {
+		case pkAlgoFamily:
 			algo = otherAlgoSameKey(sp, m.Algo)
-			if algo == "" { // the key format has a single algorithm: degenerate to "other key"
-				blob = strangerBlob
-				algo = m.Algo
-			}
-		case pkAlgoOtherType:
+		case pkAlgoForeign:
 			algo = ref.ED25519
 			if ref.PlainOf(sp.format) == ref.ED25519 {
 				algo = ref.RSASHA256
@@ -582,11 +606,27 @@ func (e *execution) decide() {
 			if sp.cert {
 				algo = ref.CertOf(algo)
 			}
+		case pkAlgoUnknown:
+			algo = "c34-unknown@verif.example"
+		}
+		switch r.v % 4 {
+		case pkBlobOtherSame:
+			blob = sp.otherSame
+		case pkBlobOtherType:
+			blob = sp.otherType
+		case pkBlobMalformed:
+			blob = m.KeyBlob[:len(m.KeyBlob)-3]
 		}
 		e.push(ref.PKOK(algo, blob), func() {
 			e.logReply(r, " algo="+algo)
 			e.prevErr = false
 			switch {
+			case !bytes.Equal(blob, m.KeyBlob) && !ref.AlgoFitsKey(sp.format, algo):
+				e.refused[sp] = true
+				e.nack = "the PK_OK named another key and an algorithm of another key type"
+			case !bytes.Equal(blob, m.KeyBlob) && algo != m.Algo:
+				e.refused[sp] = true
+				e.nack = "the PK_OK named another key (with another algorithm of the key's family)"
 			case !bytes.Equal(blob, m.KeyBlob):
 				e.refused[sp] = true
 				e.nack = "the PK_OK named another key"
